@@ -37,6 +37,20 @@ where
         .collect();
     let mut components: Vec<HashSet<T>> = Vec::new();
     let empty_hs: HashSet<T> = HashSet::new();
+    #[cfg(feature = "verif_hooks")]
+    let neighbors: HashMap<&T, Vec<T>> = {
+        let mut entries: Vec<(&T, HashSet<T>)> = neighbors.into_iter().collect();
+        entries.sort_by(|a, b| a.0.cmp(b.0));
+        entries
+    }
+        .into_iter()
+        .map(|(n, hs)| {
+            let v = hs.into_iter().collect::<Vec<T>>();
+            (n, crate::verif_hooks::order_by_key("scc.neighbors", v, |x| x.clone()))
+        })
+        .collect();
+    #[cfg(feature = "verif_hooks")]
+    let empty_hs: Vec<T> = Vec::new();
     for source in graph.get_all_node_names() {
         if scc_found.contains(&source) {
             continue;
